@@ -1,6 +1,17 @@
 -------------------------------- MODULE JC11 --------------------------------
-(* C11 — contract of the recorded events of this property (stub).           *)
+(* C11 — totality.  A "tot" event is one call with hostile arguments;       *)
+(* exp is the documented expectation for exactly this call (PanicSpec):     *)
+(*   "nopanic"  the operation is total or reports failure through its       *)
+(*              option/result type: it must return (no panic, no hang)      *)
+(*   "panic"    the doc comment promises a panic for this argument          *)
+(*   "any"      the documentation is silent for this argument               *)
 EXTENDS BigNat
 
-JudgeC11(e, rg) == FALSE
+JudgeC11(e, rg) ==
+  CASE e.op = "tot" ->
+         CASE e.exp = "nopanic" -> e.k = "ok"
+           [] e.exp = "panic"   -> e.k = "panic"
+           [] e.exp = "any"     -> e.k \in {"ok", "panic"}      \* never a hang
+           [] OTHER -> FALSE
+    [] OTHER -> FALSE
 =============================================================================
